@@ -366,6 +366,37 @@ def run(ctx: Ctx, tier: str) -> Result:
                                      norm(mn)[:80], pn, f_.name)))
             else:
                 res.ok("C13.ARGS", {"%s(%s) is not modified" % (f_.name, pn): True})
+    # ... nor kept as the installed action's own configuration: what governs the action (log text, limits, condition) is a
+    # mapping the builder made, so that a later change of the caller's dict does not rewrite an installed tracepoint
+    from .common import LA
+    la_init = p.cls(LA).lookup("__init__")
+    nb = 0
+    for bf in [f_ for f_ in p.functions.values() if f_.module.name == "deep.api.tracepoint.trigger" and f_.cls is None]:
+        for c_ in t.calls_in(bf):
+            if not any(k_.qname == LA or any(b_.qname == LA for b_ in k_.mro) for k_ in t.resolve_call(c_, bf).ctor):
+                continue
+            cfg = t.bind_args(la_init, c_).get(la_init.params[3]) if len(la_init.params) > 3 else None
+            if cfg is None:
+                continue
+            nb += 1
+            src_ = cfg
+            if isinstance(cfg, ast.Name):
+                bs_ = t.local_bindings(bf, cfg.id)
+                src_ = bs_[0][1][1] if len(bs_) == 1 and bs_[0][0] == "assign" and bs_[0][1][2] is None else (cfg if any(k_ == "param" for k_, _ in bs_) else bs_[0][1][1] if bs_ and bs_[0][0] == "assign" else cfg)
+            hops = 0
+            while isinstance(src_, ast.Name) and hops < 3:
+                bs_ = t.local_bindings(bf, src_.id)
+                if any(k_ == "param" for k_, _ in bs_) or len(bs_) != 1 or bs_[0][0] != "assign":
+                    break
+                src_, hops = bs_[0][1][1], hops + 1
+            fresh = isinstance(src_, (ast.Dict, ast.DictComp)) or (isinstance(src_, ast.Call) and norm(src_.func) in ("dict", "copy.copy", "copy.deepcopy")) or \
+                (isinstance(src_, ast.Call) and isinstance(src_.func, ast.Attribute) and src_.func.attr == "copy")
+            if fresh:
+                res.ok("C13.ARGS", {"%s: the action's configuration is a mapping made by the builder" % bf.name: norm(src_)[:40]})
+            else:
+                res.fail(Finding("C13.ARGS", bf.qname, c_, bf.loc(c_), "the action is given `%s` as its configuration, which is the mapping the caller passed (not a copy made by the "
+                                 "builder): a later change of that mapping by the program rewrites the installed tracepoint (its log text, limits)" % norm(src_)[:40]))
+    res.floor("action constructions in the builders", nb, 4)
     from .common import borrow
     borrow(ctx, res, tier, "c12", ("C12.APPLY",), "C13.INSTALL", "the trigger handler installs every published tracepoint (registered ones alongside the service's)")
     borrow(ctx, res, tier, "c03", ("C03.LOOP",), "C13.ALONGSIDE", "every installed tracepoint of a location acts there (a registration is not shadowed by another tracepoint of the line)")
